@@ -142,6 +142,22 @@ pub fn c17(h: &mut H) {
                 }
             }
             h.expect(hit_true == hit_decoy, "C17.dictionary", &format!("{}: a two-candidate dictionary attack identifies {}", what, sn), &[id]);
+            // the same attack through quotients of fields of the proof (a response divided by a challenge or by
+            // another response), with a decoy far from the true value
+            let far_decoy = Integer::from(x + (Integer::from(1) << 128u32));
+            let mut q_true = false;
+            let mut q_decoy = false;
+            let mut witness = String::new();
+            for (lp, sv) in &lv {
+                if *sv <= 0 { continue; }
+                for (lp2, cv) in &lv {
+                    if *cv <= 1 || lp == lp2 || sv.significant_bits() < cv.significant_bits() { continue; }
+                    let q = Integer::from(sv / cv);
+                    if !far(&q, x) { q_true = true; witness = format!("floor({} / {})", lp, lp2); }
+                    if !far(&q, &far_decoy) { q_decoy = true; }
+                }
+            }
+            h.expect(q_true == q_decoy, "C17.dictionary_quotient", &format!("{}: {} tells the hidden value {} from a decoy", what, witness, sn), &[id]);
         }
     };
     for iss in &issues {
